@@ -75,3 +75,78 @@ def native_replay(rep):
     if bad is None:
         return {"confirmed": False, "observed": f"no violation among {n} generated diagrams/flows"}
     return {"confirmed": True, "observed": bad, "found_by": f"bounded diagram generation ({n} cases)"}
+
+
+# ---------------------------------------------------------------- DiagramExecutor.execute on fixed diagram SHAPES (shape-bounded, value-unbounded)
+# The pre-state is built by running the setup function below symbolically on the real classes (add_module / connect / register_module): port
+# types, external values and handler outputs are arbitrary (symbolic), the object graph (which modules, which wires, declaration order) is
+# fixed per variant.  execute() then runs without any loop being cut: for that shape the statement is proved for all labels and values.
+# The general (any diagram) statement stays with the bounded stand-in.
+TV = "union:obj:TypedValue|any"
+G2 = {"t_out": "obj:PortType", "t_in": "obj:PortType", "v_src": TV, "v_ext": TV, "enforce": "bool"}
+
+
+def chain_sink_declared_first(t_out, t_in, v_src, v_ext, enforce):
+    d = WiringDiagram()
+    d.add_module(ModuleSpec(name="sink", inputs={"i": t_in}, outputs={}))
+    d.add_module(ModuleSpec(name="src", inputs={}, outputs={"o": t_out}))
+    d.connect("src", "o", "sink", "i")
+    ex = DiagramExecutor(d)
+    ex.register_module("src", lambda inputs: {"o": v_src})
+    ex.register_module("sink", lambda inputs: {})
+    return {"self": ex, "external_inputs": None, "enforce_static_checks": enforce}
+
+
+def chain_sink_first_with_external_on_the_wired_port(t_out, t_in, v_src, v_ext, enforce):
+    d = WiringDiagram()
+    d.add_module(ModuleSpec(name="sink", inputs={"i": t_in}, outputs={}))
+    d.add_module(ModuleSpec(name="src", inputs={}, outputs={"o": t_out}))
+    d.connect("src", "o", "sink", "i")
+    ex = DiagramExecutor(d)
+    ex.register_module("src", lambda inputs: {"o": v_src})
+    ex.register_module("sink", lambda inputs: {})
+    return {"self": ex, "external_inputs": {"sink": {"i": v_ext}}, "enforce_static_checks": enforce}
+
+
+def chain_src_first_with_external_on_the_wired_port(t_out, t_in, v_src, v_ext, enforce):
+    d = WiringDiagram()
+    d.add_module(ModuleSpec(name="src", inputs={}, outputs={"o": t_out}))
+    d.add_module(ModuleSpec(name="sink", inputs={"i": t_in}, outputs={}))
+    d.connect("src", "o", "sink", "i")
+    ex = DiagramExecutor(d)
+    ex.register_module("src", lambda inputs: {"o": v_src})
+    ex.register_module("sink", lambda inputs: {})
+    return {"self": ex, "external_inputs": {"sink": {"i": v_ext}}, "enforce_static_checks": enforce}
+
+
+def self_loop_seeded_from_outside(t_out, t_in, v_src, v_ext, enforce):
+    d = WiringDiagram()
+    d.add_module(ModuleSpec(name="a", inputs={"i": t_in}, outputs={"o": t_out}))
+    d.connect("a", "o", "a", "i")
+    ex = DiagramExecutor(d)
+    ex.register_module("a", lambda inputs: {"o": v_src})
+    return {"self": ex, "external_inputs": {"a": {"i": v_ext}}, "enforce_static_checks": enforce}
+
+
+def two_cycle_unseeded(t_out, t_in, v_src, v_ext, enforce):
+    d = WiringDiagram()
+    d.add_module(ModuleSpec(name="a", inputs={"i": t_in}, outputs={"o": t_out}))
+    d.add_module(ModuleSpec(name="b", inputs={"i": t_in}, outputs={"o": t_out}))
+    d.connect("a", "o", "b", "i")
+    d.connect("b", "o", "a", "i")
+    ex = DiagramExecutor(d)
+    ex.register_module("a", lambda inputs: {"o": v_src})
+    ex.register_module("b", lambda inputs: {"o": v_src})
+    return {"self": ex, "external_inputs": None, "enforce_static_checks": enforce}
+
+
+EXE = FR + "::DiagramExecutor.execute"
+contract(EXE, "C16", variant="chain-consumer-declared-first", options={"setup": "chain_sink_declared_first"}, ghost_params=G2, raises=["WiringError"],
+         ensures={"feeder-runs-first-each-module-once": "len(result.execution_order) == 2 and result.execution_order[0] == 'src' and result.execution_order[1] == 'sink'",
+                  "wire-delivers-the-source-value": "result.modules['sink'].inputs['i'] is result.modules['src'].outputs['o']",
+                  "delivered-value-is-label-safe": "result.modules['sink'].inputs['i'].data_type == t_in.data_type and "
+                                                   "result.modules['sink'].inputs['i'].integrity.value >= t_in.integrity.value"})
+for name_ in ("chain_sink_first_with_external_on_the_wired_port", "chain_src_first_with_external_on_the_wired_port", "self_loop_seeded_from_outside",
+              "two_cycle_unseeded"):
+    contract(EXE, "C16", variant=name_.replace("_", "-"), options={"setup": name_}, ghost_params=G2, raises=["WiringError"],
+             ensures={"a-cycle-or-a-doubly-sourced-port-is-never-executed": "False"})
